@@ -84,6 +84,19 @@ def field_attr(f, rng):
         extra += ['encode_with = "crate::pass::encode"', 'decode_with = "crate::pass::decode"', 'cbor_len = "crate::pass::cbor_len"']
     if f["ty"] == "pcw":
         extra.append('with = "crate::pass"')
+    if f["ty"] == "cu" and str(f.get("osp", "")).startswith("p") and f.get("osp") != "plain":
+        import itertools
+        k = int(f["osp"][1:])
+        four = ['encode_with = "crate::cu::encode"', 'decode_with = "crate::cu::decode"', 'nil = "crate::cu::nil"', 'is_nil = "crate::cu::is_nil"']
+        order = list(list(itertools.permutations(four))[k % 24])
+        order.insert(rng.randint(0, 4), 'cbor_len = "crate::cu::cbor_len"')
+        pre = [f"{letter}({idx})"] + extra
+        if k % 3 == 0:
+            # (split after the first of the five: the macro itself rejects several of the other split points, e.g. a `nil` whose
+            # `decode_with` stands in the other attribute)
+            cut = 1
+            return "#[cbor(" + ", ".join(pre + order[:cut]) + ")] #[cbor(" + ", ".join(order[cut:]) + ")]"
+        return "#[cbor(" + ", ".join(pre + order) + ")]"
     if f["ty"] == "cu":
         if rng.random() < 0.5:
             extra.append('with = "crate::cu"')
@@ -97,7 +110,8 @@ def field_attr(f, rng):
     if len(extra) > 1:
         rng.shuffle(extra)
         if rng.random() < 0.4:
-            k = rng.randint(1, len(extra) - 1)
+            # (with nil / is_nil in play only the first split point is accepted by the macro in every order)
+            k = 1 if any(x.startswith(("nil", "is_nil", "has_nil")) for x in extra) else rng.randint(1, len(extra) - 1)
             return "#[cbor(" + ", ".join([f"{letter}({idx})"] + extra[:k]) + ")] #[cbor(" + ", ".join(extra[k:]) + ")]"
     if extra or rng.random() < 0.3:
         return "#[cbor(" + ", ".join([f"{letter}({idx})"] + extra) + ")]"
